@@ -12,8 +12,10 @@ VERIF = os.path.dirname(os.path.dirname(os.path.abspath(__file__)))
 REPO = os.environ.get("VERIF_REPO", "/repo")
 SPEC = os.path.join(VERIF, "spec")
 BUILD = os.path.join(VERIF, "build")
-EVID = os.path.join(VERIF, "evidence")
-REPLAYS = os.path.join(VERIF, "replays")
+# (VERIF_EVID / VERIF_REPLAYS / VERIF_REPO redirect a run that evaluates a changed copy of the
+# repository, e.g. a seeded mutation in a scratch worktree, away from the registered outputs)
+EVID = os.environ.get("VERIF_EVID") or os.path.join(VERIF, "evidence")
+REPLAYS = os.environ.get("VERIF_REPLAYS") or os.path.join(VERIF, "replays")
 KNOWN = os.path.join(VERIF, "KNOWN_FINDINGS.txt")
 
 GOENV = dict(GOFLAGS="-mod=mod", GOPROXY="off", GOSUMDB="off", GOTOOLCHAIN="local",
@@ -51,8 +53,17 @@ def build_harness():
         if a != b:
             open(dst, "wb").write(a)
     out = os.path.join(BUILD, "driver")
+    extra = []
+    if os.path.realpath(REPO) != "/repo":
+        # another copy of the repository: same module, alternate go.mod with the replace redirected
+        tag = re.sub(r"[^A-Za-z0-9]+", "_", os.path.realpath(REPO)).strip("_")
+        alt = os.path.join(h, "go.%s.mod" % tag)
+        open(alt, "w").write(open(os.path.join(h, "go.mod")).read().replace("=> /repo", "=> " + os.path.realpath(REPO)))
+        shutil.copy(dst, os.path.join(h, "go.%s.sum" % tag))
+        out = os.path.join(BUILD, "driver-" + tag)
+        extra = ["-modfile=" + alt]
     t0 = time.time()
-    p = subprocess.run(["go", "build", "-tags", "verif", "-o", out, "./cmd/driver"],
+    p = subprocess.run(["go", "build", "-tags", "verif"] + extra + ["-o", out, "./cmd/driver"],
                        cwd=h, env=env_with(), capture_output=True, text=True)
     if p.returncode != 0:
         raise Infra("harness build failed:\n" + p.stdout + p.stderr)
